@@ -60,6 +60,9 @@ func Setup(dir string) error {
 			{"sysctl", "-qw", "net.ipv6.conf.vlab0.accept_dad=0", "net.ipv6.conf.vlab1.accept_dad=0"},
 			{"ip", "link", "set", "vlab0", "up"},
 			{"ip", "link", "set", "vlab1", "up"},
+			// the same link-local address on both ends: two distinct clients that differ only by zone
+			{"ip", "-6", "addr", "add", "fe80::c4/64", "dev", "vlab0", "nodad"},
+			{"ip", "-6", "addr", "add", "fe80::c4/64", "dev", "vlab1", "nodad"},
 		}
 		for _, s := range steps {
 			if err := sh(s...); err != nil {
@@ -104,7 +107,7 @@ func LinkLocal() (a0, a1 *net.UDPAddr, err error) {
 		}
 		addrs, _ := ifi.Addrs()
 		for _, a := range addrs {
-			if ipn, ok := a.(*net.IPNet); ok && ipn.IP.To4() == nil && ipn.IP.IsLinkLocalUnicast() {
+			if ipn, ok := a.(*net.IPNet); ok && ipn.IP.To4() == nil && ipn.IP.IsLinkLocalUnicast() && !ipn.IP.Equal(net.ParseIP("fe80::c4")) {
 				return &net.UDPAddr{IP: ipn.IP, Zone: name}
 			}
 		}
